@@ -67,6 +67,19 @@ pub trait Buf {
     fn has_remaining(&self) -> bool { self.remaining() > 0 }
     fn copy_to_slice(&mut self, dst: &mut [u8]) {
         assert!(self.remaining() >= dst.len(), "buffer underflow");
+        // contiguous fast path (one iteration of the documented loop): keeps the number of
+        // loop iterations independent of a symbolic chunk length
+        if self.chunk().len() >= dst.len() {
+            let n = dst.len();
+            let src = self.chunk();
+            let mut i = 0;
+            while i < n {
+                dst[i] = src[i];
+                i += 1;
+            }
+            self.advance(n);
+            return;
+        }
         let mut off = 0;
         while off < dst.len() {
             let src = self.chunk();
